@@ -2,6 +2,7 @@ package props
 
 import (
 	"encoding/json"
+	"math"
 	"errors"
 	"fmt"
 	"io/fs"
@@ -993,6 +994,68 @@ func (e *Env) Exec(i int, op *Op) bool {
 		if err := e.db.Commit(&Doc{}); err != nil {
 			e.failf("%s: Commit: %v", what, err)
 		}
+	case "insertBad", "updateBad":
+		// a value that cannot be serialised (NaN / Inf in a float field)
+		var d *Doc
+		id := ""
+		if op.Op == "updateBad" {
+			var ok bool
+			if id, ok = e.liveRef(op.Ref); !ok {
+				return false
+			}
+			d = cloneDoc(e.m.objs[id])
+			d.H = Hooks{}
+		} else {
+			d = cloneDoc(op.D)
+		}
+		d.Initialize(id)
+		poison(d, op.Aux)
+		// the model can only decide rejections that precede serialisation
+		probe := cloneDoc(op.D)
+		if op.Op == "updateBad" {
+			probe = cloneDoc(e.m.objs[id])
+			probe.H = Hooks{}
+		}
+		err := e.db.InsertOrUpdate(d)
+		e.tracef("%s -> %s", what, classify(err))
+		if err == nil {
+			e.failf("%s: an object holding %v in a float field (cannot be serialised) was accepted", what, op.Aux["val"])
+		}
+		e.flag("rejected-unserialisable")
+		if id != "" {
+			e.flag("rejected-update")
+		}
+	case "manyBad":
+		args, mdocs, _, _ := e.resolveItems(op.Items)
+		if len(args) == 0 {
+			return false
+		}
+		k := op.Ref % len(args)
+		if d, ok := args[k].(*Doc); ok && mdocs[k] != nil {
+			poison(d, op.Aux)
+		} else {
+			return false
+		}
+		n, err := e.db.InsertOrUpdateMany(args...)
+		e.tracef("%s -> n=%d %s", what, n, classify(err))
+		if err == nil || n != 0 {
+			e.failf("%s: batch with an unserialisable member at position %d: n=%d err=%v, want n=0 and an error", what, k, n, err)
+		}
+		e.flag("rejected-unserialisable")
+		e.flag("batch-rejected")
+		if k > 0 {
+			e.flag("batch-offender-not-first")
+		}
+	case "insertOther":
+		// a collection that was never created
+		err := e.db.InsertOrUpdate(&Other{K: 1, V: "x"})
+		if err == nil {
+			e.failf("%s: InsertOrUpdate into a collection that was never created succeeded", what)
+		}
+		if ents, _ := os.ReadDir(e.root); len(ents) != 1 {
+			e.failf("%s: a rejected insert into a never-created collection left %d entries in the database root", what, len(ents))
+		}
+		e.flag("rejected-unknown-collection")
 	case "tick":
 		// virtual time: advanced by the property's AfterOp hook (instrumented build)
 	case "snapshot":
@@ -1716,4 +1779,22 @@ func (e *Env) execSnapshot(what string, op *Op) {
 			e.failf("%s: outstanding search %s lost %s, which matched at evaluation time and was not deleted since", what, q, e.tag(id))
 		}
 	}
+}
+
+// poison puts NaN / +Inf / -Inf into a float field of d.
+func poison(d *Doc, aux map[string]interface{}) {
+	v := math.NaN()
+	switch aux["val"] {
+	case "inf":
+		v = math.Inf(1)
+	case "-inf":
+		v = math.Inf(-1)
+	}
+	path, _ := aux["path"].(string)
+	p, ok := docPathIndex[path]
+	if !ok || p.Class != ClsFloat {
+		p = docPathIndex["F64"]
+	}
+	lv := leafForSet(d, p.Path)
+	lv.SetFloat(v)
 }
